@@ -60,7 +60,9 @@ def check(run):
                 ext.append(b'"\\u' + b"".join(digits) + b'"')
             ext.append(b'"\\' + bytes([c]) + b'"')
             ext.append(b"[1" + bytes([c]) + b"2]")
-        mlines = ["J 10 - " + hx(s) for s in muts + ext]
+        # a third of them with another nesting limit and with the filter `true` (which keeps everything): the same verdicts
+        # as without a filter, whatever the order in which the two options are given (the harness alternates it)
+        mlines = [("J %d 74727565 " % (1, 2, 3, 10)[(i // 3) % 4] if i % 3 == 1 else "J 10 - ") + hx(s) for i, s in enumerate(muts + ext)]
         L = lines + mlines
         mism, mo, io = vlib.correspond(run, model, impl, L, cfg, "dialect " + cfg)
         all_mism += [(cfg, m) for m in mism]
